@@ -152,15 +152,39 @@ def judge_growth(chk, case, res):
         return
     if isinstance(depth, (int, float)) and depth >= 5:
         chk.nontrivial(key)
-    # proportionality: the engine charges 200 bytes per frame, so no script
-    # recursion can get deeper than M/200 (+ slack) before being stopped
-    if isinstance(depth, (int, float)) and depth > mem / 200.0 + 50:
-        chk.violation("growth|%s|too-deep" % name, casej, "depth <= M/200 + 50 = %d" % (mem / 200 + 50), depth, sub="growth")
-        return
+    # proportionality is judged after all cases are in (depth_relations): how many bytes a frame is charged
+    # is the engine's business, but the depth reached must scale with M and must not depend on the history
+    if isinstance(depth, (int, float)):
+        DEPTHS[(name, mem, t)] = (depth, casej)
     if cpu > 20.0 + mem / 100000.0:
         chk.violation("growth|%s|slow" % name, casej, "cpu <= %.0fs" % (20.0 + mem / 100000.0), cpu, sub="growth")
         return
     chk.sample({"shape": name, "M": mem, "T": t, "outcome": "MemoryLimitError", "depth": depth, "cpu_s": cpu}, cls="g" + name, per_class=1, total=14)
+
+
+DEPTHS = {}
+
+
+def depth_relations(chk):
+    """(i) depth grows at most linearly with M (ratio depth/M within a factor 3 of the ratio at the smallest M that
+    reached depth >= 20 for that shape); (ii) a context with a history of failed evaluations is stopped at the same
+    depth as a fresh one (+-5)."""
+    by_shape = {}
+    for (name, mem, t), (depth, casej) in DEPTHS.items():
+        by_shape.setdefault((name, t), []).append((mem, depth, casej))
+    for (name, t), rows in by_shape.items():
+        rows.sort(key=lambda r: r[0])
+        base = next(((m, d) for m, d, _ in rows if d >= 20), None)
+        if base:
+            for m, d, casej in rows:
+                if m > base[0] and d / float(m) > 3.0 * base[1] / base[0] + 1e-9 and d > 50:
+                    chk.violation("growth|%s|depth-not-proportional" % name, casej,
+                                  "depth/M <= 3 x (%d/%d)" % (base[1], base[0]), "depth %d at M=%d" % (d, m), sub="growth")
+        if name.startswith("after-failures:"):
+            fresh = {m: d for m, d, _ in by_shape.get((name[len("after-failures:"):], t), [])}
+            for m, d, casej in rows:
+                if m in fresh and abs(d - fresh[m]) > 5:
+                    chk.violation("growth|%s|depth-depends-on-history" % name, casej, "depth %d (fresh context) +- 5" % fresh[m], d, sub="growth")
 
 
 # ------------------------------------------------------------------ (b) bounded
@@ -451,8 +475,10 @@ def main(chk):
             chk.violation("saved-replay|" + path, rec.get("case"), r["expected"], r["actual"], sub="replay")
     g = recursion_cases(chk)
     res = pool.run(run_growth, g, timeout=200)
+    DEPTHS.clear()
     for c, r in zip(g, res):
         judge_growth(chk, c, r)
+    depth_relations(chk)
     nb = 500 if chk.tier == "quick" else 2500
     n_iter = 300 if chk.tier == "quick" else 1000
     base = core.shard_seed(chk.seed, "C02", "bounded") % (10 ** 9)
